@@ -117,6 +117,8 @@ func zzC06Gate() {
 	})
 	srv.receivingMethodHandler_ = zzC06Recorder
 	ss := &ServerSession{server: srv}
+	keepaliveStopped := 0
+	ss.keepaliveCancel = func() { keepaliveStopped++ } // keep-alive is running (Server.Connect started it)
 
 	// arbitrary session state
 	var initParams *InitializeParams
@@ -179,6 +181,9 @@ func zzC06Gate() {
 	res, err := ss.handle(context.Background(), req)
 	reached := len(env.reached) > 0
 	_ = res
+	// (C13) serving a request — of whatever era, accepted or refused — never ends the session's keep-alive: a request
+	// with 2026-07-28 metadata may be a mere probe (server/discover) that the legacy handshake follows on this session
+	vAssert(keepaliveStopped == 0, "C13.serving-a-request-never-stops-keep-alive")
 
 	var werr *jsonrpc.Error
 	isWire := errors.As(err, &werr)
